@@ -35,5 +35,11 @@ TEXT = {
         "Bech32(p,a) = lower(s); migration.Decode(Encode a) = a for every 32-byte a and every hash with >= 4 output bytes; migration.Decode t = ok a implies t = Encode a (81 trytes). "
         "Correspondence: every version byte 0..255 x payload lengths, all prefixes, corrupted addresses, every single-tryte substitution of sampled migration strings.",
    note="Trusted: Lean kernel; extractor+harness; BLAKE2b is an arbitrary function in the theorems and a Lean oracle in the driver; inherits the C04/C05/C14 assumptions. No-panic observed by correspondence (total model)."),
+ "C16": dict(ref="DESIGN.md §5 C16",
+   technique="Lean 4 proof: XOR-linearity of polymod + a kernel-evaluated (decide +kernel, no native_decide) meet-in-the-middle certificate over all weight<=4 error patterns in an 89-symbol window, lifted to Decode",
+   text="Lean theorems: (i) two symbol words with polymod = 1 cannot differ in 1..4 positions within the last 89 positions (affine-over-GF(2) polymod; certificate: 3.68M syndrome pairs checked absent from a 2728-key tree inside the kernel, "
+        "split over 16 modules); (ii) lifted to Decode: any valid string h++\"1\"++d with 1..4 characters replaced (data: charset character of a different value, either case; prefix: letter for letter of the same case or digit for digit) "
+        "is rejected. Correspondence: all weight-1, all weight-2 position pairs and sampled weight 3-4 substitutions of sampled code words (incl. longest) through the real Decode.",
+   note="Trusted: Lean kernel (the certificate is checked by kernel evaluation; `#print axioms` shows propext, Classical.choice, Quot.sound only); extractor+harness; generator constants tied by Tie/Bech32. Inherits the C04 ASCII-case assumption."),
 }
 PENDING = {}
